@@ -39,9 +39,14 @@ def main(argv):
         fn = getattr(m, ob['fn'])
         t0 = time.time()
         if ob['kind'] == 'e2':
+            import os
+            budget = ob.get('timeout', 30) * float(
+                os.environ.get('VERIF_TIME_SCALE', 1))
+            if tier == 'thorough':
+                budget = min(budget, float(
+                    os.environ.get('VERIF_SLICE_CAP', '900')))
             res = engine.explore(
-                fn, fixed=ob.get('fixed'), timeout=ob.get('timeout', 30)
-                * float(__import__('os').environ.get('VERIF_TIME_SCALE', 1)),
+                fn, fixed=ob.get('fixed'), timeout=budget,
                 per_path_timeout=ob.get('per_path_timeout', 20),
                 validate_every=ob.get('validate_every', 1),
                 max_failures=ob.get('max_failures', 1))
